@@ -3,21 +3,22 @@ CONSTANTS
   Pubs = {"p1", "p2"}
   MaxMsgs = 3
   MaxPerPub = 2
-  MaxReads = 1
+  MaxReads = 0
   OccSet = {TRUE}
   BatchSet = {2}
   PathSet = {"async"}
   MaxPauses = 0
   MaxRestarts = 0
-  Kinds = {"waive", "equal", "neg"}
+  Kinds = {"waive", "equal", "future"}
   Pols = {"leader"}
-  Vias = {"api"}
+  Vias = {"api", "nats", "natsq"}
   MaxHolds = 0
   MaxSnaps = 0
   MaxInstalls = 0
   Snap0Set = {"none"}
   SnapKeeps = TRUE
-  Mut = "neg_waives"
-INVARIANTS TypeOK C16_Dense C16_Once C16_StoredAtExpected C16_AckOffset C16_RejectNotStored C16_RejectJustified C16_WaivedAccepted C16_OneWinner C16_NoneNotSilent C16_Answered I_Resolved I_NonOccAll I_Order I_RejectWindow
+  Mut = "noinbox_exp"
+INVARIANTS C16_Dense C16_Once C16_StoredAtExpected C16_AckOffset C16_RejectNotStored C16_RejectJustified C16_WaivedAccepted C16_OneWinner C16_NoneNotSilent C16_Answered C16_UnstoredJustified
+
 VIEW MCView
 CHECK_DEADLOCK FALSE
